@@ -377,6 +377,23 @@ def _all_definitions(ctx: Ctx, item):
         for removed in [None] + list(range(len(m0.fields))):
             fl = [NMEA2000Field(id=f.id, name=f.name, value=f.value, raw_value=f.raw_value) for i, f in enumerate(m0.fields) if i != removed]
             plan.append((key, removed, NMEA2000Message(PGN=d.pgn, id=d.id, fields=fl, source=1, destination=255, priority=3)))
+        # ... and with each field in turn carrying a value one step outside what its bits can hold (too wide / below the lowest code)
+        for i, fd in enumerate(d.fields):
+            if fd.match is not None or fd.bits is None or i >= len(m0.fields):
+                continue
+            bad = []
+            if fd.type in ("LOOKUP", "RESERVED"):
+                bad = [1 << fd.bits, -1]
+            elif fd.type in ("NUMBER",) and fd.bits <= 48:
+                off = float(fd.offset) if fd.offset is not None else 0.0
+                res = float(fd.res)
+                if fd.signed and fd.offset is None:
+                    bad = [(1 << (fd.bits - 1)) * res * 1.0 + res, -((1 << (fd.bits - 1)) + 2) * res]
+                else:
+                    bad = [((1 << fd.bits) + 1) * res + off, off - 2 * res]
+            for k, v in enumerate(bad):
+                fl = [NMEA2000Field(id=f.id, name=f.name, value=(v if j == i else f.value), raw_value=(v if j == i else f.raw_value)) for j, f in enumerate(m0.fields)]
+                plan.append((key, f"{i}:{'wide' if k == 0 else 'low'}", NMEA2000Message(PGN=d.pgn, id=d.id, fields=fl, source=1, destination=255, priority=3)))
     results = []
 
     async def main(s):
@@ -409,6 +426,14 @@ def _all_definitions(ctx: Ctx, item):
             # (the client's encoder and this one advance their fast-packet counters in step: every complete message is sent through both)
             if written != want:
                 ctx.report(f"C19|ebyte|all-definitions|wrong-bytes", f"{key}: {len(written)} bytes written, the encoder produces {len(want)}", case)
+        elif isinstance(removed, str):
+            i, how = removed.split(":")
+            fld = m.fields[int(i)]
+            if written:
+                ctx.report(f"C19|ebyte|all-definitions|unrepresentable-value-written", f"{key}: field {fld.id} = {fld.raw_value!r} (one step {'beyond its width' if how == 'wide' else 'below its lowest code'}): "
+                           f"{len(written)} bytes were written", case)
+            if new_links or trace or state != "CONNECTED":
+                ctx.report(f"C19|ebyte|all-definitions|connection-disturbed", f"{key}: field {fld.id} = {fld.raw_value!r}: status {trace}, {new_links} new connection(s), state {state}", case)
         else:
             fid = m.fields[removed].id if removed < len(m.fields) else "last"
             if written:
